@@ -154,6 +154,39 @@ StringLike == {"String", "BinaryString", "ContentId", "Tags", "MaterialColors", 
 (* A prop entry is <<name (string), value [t, v], name bytes>>.              *)
 
 IsKnown(class, pn) == class \in Classes /\ IsOk(Canonical(class, pn))
+
+\* ---- legacy properties (PropertySerialization::Migrate) ----------------------------------
+\* The value a legacy value turns into.  BrickColor -> Color3uint8 through the colour table
+\* exported with the database; Bool -> ScreenInsets enum; ContentId -> Content; the Font enum ->
+\* Font face table is left uninterpreted ("FontMig" carries the enum value; only its being a Font
+\* and agreement between paths are required).
+MigValue(op, pv) ==
+    CASE op = "BrickColorToColor" /\ pv.t = "BrickColor" ->
+            [t |-> "Color3uint8", v |-> DB.brickcolors[pv.v + 1]]
+      [] op = "IgnoreGuiInsetToScreenInsets" /\ pv.t = "Bool" ->
+            [t |-> "Enum", v |-> IF pv.v = 1 THEN <<0, 0, 0, 1>> ELSE <<0, 0, 0, 2>>]
+      [] op = "ContentIdToContent" /\ pv.t = "ContentId" ->
+            [t |-> "Content", v |-> IF pv.v = <<>> THEN <<0>> ELSE <<1, pv.v>>]
+      [] op = "FontToFontFace" /\ pv.t = "Enum" -> [t |-> "FontMig", v |-> pv.v]
+      [] OTHER -> pv
+
+IsLegacy(class, pn) == class \in Classes /\ Migrates(class, pn)
+TargetOf(class, pn) == Canonical(class, MigrationTarget(class, pn))
+
+\* the logical properties of an instance: a legacy property stands for its new property with the
+\* migrated value, unless the instance carries the new property explicitly (then it is dropped)
+EffectiveProps(class, props) ==
+    LET carriesExplicit(tn) == \E y \in 1..Len(props) :
+                                  /\ ~IsLegacy(class, props[y][1])
+                                  /\ IsKnown(class, props[y][1]) /\ CanonicalName(class, props[y][1]) = tn
+        keep == SelectSeq([x \in 1..Len(props) |-> x],
+                          LAMBDA x : ~(IsLegacy(class, props[x][1]) /\ carriesExplicit(TargetOf(class, props[x][1]).desc.name)))
+    IN [i \in 1..Len(keep) |->
+          LET prop == props[keep[i]] IN
+          IF IsLegacy(class, prop[1])
+          THEN LET t == TargetOf(class, prop[1]).desc IN
+               <<t.name, MigValue(MigrationOp(class, prop[1]), prop[2]), t.name_b>>
+          ELSE prop]
 Serializes(class, pn) == IsOk(Serialized(class, pn))
 
 \* name under which the value is stored in the file / shown after reading
@@ -185,6 +218,7 @@ WireOK(w, wt, pv, order, sstr) ==
       [] V = "Font"       -> wt = "Font" /\ w = <<v[1], v[2], v[3], v[5]>>
       [] V = "Content"    -> wt = "Content" /\ w = (IF v[1] = 2 THEN <<2, IF v[2] > 0 THEN order[v[2]] ELSE -1>> ELSE v)
       [] V = "EnumItem"   -> wt = "Enum" /\ w = v[2]
+      [] V = "FontMig"    -> wt = "Font"
       [] V = "Color3" /\ wt = "Color3uint8" -> \A c \in 1..3 : Quantised(v[c], w[c])
       [] OTHER            -> wt = V /\ w = v
 
@@ -200,6 +234,7 @@ ReadOK(av, pv, known, serType) ==
       [] V = "Ref" -> av.t = "Ref" /\ av.v = (IF v > 0 THEN v ELSE 0)
       [] V = "Content" -> av.t = "Content" /\ av.v = (IF v[1] = 2 THEN <<2, IF v[2] > 0 THEN v[2] ELSE 0>> ELSE v)
       [] V = "Font" -> av.t = "Font" /\ av.v = <<v[1], v[2], v[3], IF v[5] = <<>> THEN 0 ELSE 1, v[5]>>
+      [] V = "FontMig" -> av.t = "Font"
       [] V = "Color3" /\ serType = "Color3uint8" ->
              \/ (av.t = "Color3uint8" /\ \A c \in 1..3 : Quantised(v[c], av.v[c]))
              \/ (av.t = "Color3" /\ \A c \in 1..3 : \E q \in 0..255 : Quantised(v[c], q) /\ av.v[c] = K255[q + 1])
@@ -229,7 +264,8 @@ FileIssues(F, B, dialect) ==
     (IF KidsOf(pr, -1) # [k \in 1..Len(B.roots) |-> order[B.roots[k]]] THEN {<<0, "", "", "root-order">>} ELSE {})
     \cup UNION {
          LET r  == order[k]
-             bi == B.inst[k]
+             b0 == B.inst[k]
+             bi == [b0 EXCEPT !.props = EffectiveProps(b0.class, b0.props)]
              sameClassOthers == {j \in 1..N : j # k /\ B.inst[j].class = bi.class}
          IN
          (IF I[InstChunkOfRef(F, r)].class # bi.class_b THEN {<<k, bi.class, "", "class">>} ELSE {})
@@ -241,16 +277,20 @@ FileIssues(F, B, dialect) ==
                   x \in { x \in 1..Len(bi.props) :
                             LET prop == bi.props[x] IN
                             /\ IsStored(bi.class, prop)
+                            \* (an instance carrying two spellings of one logical property may show either value)
                             /\ ~\E i \in colNamed(r, StoredName(bi.class, prop)) :
-                                   WireOK(ColumnValue(F, P, i, r), P[i].t, prop[2], order, ss) } }
+                                   \E x2 \in 1..Len(bi.props) :
+                                      /\ IsStored(bi.class, bi.props[x2])
+                                      /\ StoredName(bi.class, bi.props[x2]) = StoredName(bi.class, prop)
+                                      /\ WireOK(ColumnValue(F, P, i, r), P[i].t, bi.props[x2][2], order, ss) } }
          \* every other column of its class is one that a same-class instance carried, and shows the default
          \cup { <<k, bi.class, "", "unexplained-column">> :
                   i \in { i \in ColumnsOf(F, P, r) :
                             ~( \/ P[i].name = NameBytes
                                \/ \E x \in 1..Len(bi.props) :
                                      IsStored(bi.class, bi.props[x]) /\ StoredName(bi.class, bi.props[x]) = P[i].name
-                               \/ \E j \in sameClassOthers : \E x \in 1..Len(B.inst[j].props) :
-                                     LET prop == B.inst[j].props[x] IN
+                               \/ \E j \in sameClassOthers : \E x \in 1..Len(EffectiveProps(bi.class, B.inst[j].props)) :
+                                     LET prop == EffectiveProps(bi.class, B.inst[j].props)[x] IN
                                      /\ IsStored(bi.class, prop) /\ StoredName(bi.class, prop) = P[i].name
                                      /\ DefaultWireOK(ColumnValue(F, P, i, r), P[i].t, bi.class,
                                                       ShownName(bi.class, prop), order, ss) ) } }
@@ -270,7 +310,8 @@ RoundTripIssues(A, B) ==
     (IF A.roots # B.roots THEN {<<0, "", "", "root-order">>} ELSE {})
     \cup UNION {
          LET ai == A.inst[k]
-             bi == B.inst[k]
+             b0 == B.inst[k]
+             bi == [b0 EXCEPT !.props = EffectiveProps(b0.class, b0.props)]
              others == {j \in 1..N : j # k /\ B.inst[j].class = bi.class}
              shown(prop) == ShownName(bi.class, prop)
          IN
@@ -283,14 +324,17 @@ RoundTripIssues(A, B) ==
                             /\ IsStored(bi.class, prop)
                             /\ ~\E y \in 1..Len(ai.props) :
                                   /\ ai.props[y][1] = shown(prop)
-                                  /\ ReadOK(ai.props[y][2], prop[2], IsKnown(bi.class, prop[1]),
-                                            IF IsKnown(bi.class, prop[1]) THEN SerializedType(bi.class, prop[1]) ELSE "") } }
+                                  /\ \E x2 \in 1..Len(bi.props) :
+                                        /\ IsStored(bi.class, bi.props[x2]) /\ shown(bi.props[x2]) = shown(prop)
+                                        /\ ReadOK(ai.props[y][2], bi.props[x2][2], IsKnown(bi.class, bi.props[x2][1]),
+                                                  IF IsKnown(bi.class, bi.props[x2][1])
+                                                  THEN SerializedType(bi.class, bi.props[x2][1]) ELSE "") } }
          \cup { <<k, bi.class, ai.props[y][1], "unexplained">> :
                   y \in { y \in 1..Len(ai.props) :
                             ~( \/ \E x \in 1..Len(bi.props) :
                                     IsStored(bi.class, bi.props[x]) /\ shown(bi.props[x]) = ai.props[y][1]
-                               \/ \E j \in others : \E x \in 1..Len(B.inst[j].props) :
-                                    LET prop == B.inst[j].props[x] IN
+                               \/ \E j \in others : \E x \in 1..Len(EffectiveProps(bi.class, B.inst[j].props)) :
+                                    LET prop == EffectiveProps(bi.class, B.inst[j].props)[x] IN
                                     /\ IsStored(bi.class, prop) /\ ShownName(bi.class, prop) = ai.props[y][1]
                                     /\ (bi.class \in Classes /\ HasDefault(bi.class, ai.props[y][1])) =>
                                            ReadOK(ai.props[y][2], DefaultOf(bi.class, ai.props[y][1]), TRUE,
